@@ -176,6 +176,13 @@ def run(ctx):
                 points.append(("py-oserror", key, counts[key]))
             elif pk == 0 and any(x in fn for x in in_workers) and (not ctx.quick() or "read_batch" == fn):
                 points.append(("py-base", key, 1))
+        # the same points with a ValueError (what numerical code raises most): an `except ValueError` written for an expected
+        # condition must not swallow an unexpected one. Last invocation of every function (quick), first as well (thorough).
+        for key in faults.State.order:
+            if key.split(":")[1] in faults.WORKERS and pk:
+                continue
+            for k in sorted(set([counts[key]] if ctx.quick() else [1, counts[key]])):
+                points.append(("py-valueerror", key, k))
         ctx.counters["fault_points_%s_%s_%d_v%d" % (sc + (variant,))] = len(points)
         # in MultiPool scenarios, functions that only run inside workers cannot be hit from the parent: detect by `reached`
         for kindp, key, k in points:
@@ -185,7 +192,7 @@ def run(ctx):
             faults.State.fired = 0
             if kindp.startswith("py"):
                 # before the pool forks: workers inherit the target
-                faults.inject(key, k, base=(kindp == "py-base"), oserr=(kindp == "py-oserror"))
+                faults.inject(key, k, base=(kindp == "py-base"), oserr=(kindp == "py-oserror"), value=(kindp == "py-valueerror"))
                 if pk:
                     base.close()
                     base = schwimmbad.MultiPool(processes=pk)
